@@ -235,3 +235,6 @@ def run(ctx):
 
     # ---------------- R6: truncate only after the storages were synced ----------------
     common.truncate_after_sync(ctx, "R6.TRUNCATE-AFTER-SYNC", R6_TOLERATED)
+
+    # ---------------- R8: every page drained from the dirty tracker is logged ----------------
+    common.drained_logged(ctx, "R8.DRAINED-LOGGED")
